@@ -284,6 +284,22 @@ pub fn sequences(tier: Tier) -> Vec<Seq> {
                 }
             }
         }
+        // length 4: every triple of client behaviours, and every triple of observation-socket
+        // behaviours under well-formed clients, each closed by a well-formed exchange
+        for c1 in CLIENTS {
+            for c2 in CLIENTS {
+                for c3 in CLIENTS {
+                    v.push(Seq(vec![(c1, ObsKind::Valid), (c2, ObsKind::Valid), (c3, ObsKind::Valid), (Client::Get, ObsKind::Valid)]));
+                }
+            }
+        }
+        for o1 in OBS {
+            for o2 in OBS {
+                for o3 in OBS {
+                    v.push(Seq(vec![(Client::Get, o1), (Client::GetNoRead, o2), (Client::SplitGet, o3), (Client::Get, ObsKind::Valid)]));
+                }
+            }
+        }
     }
     v
 }
@@ -339,7 +355,7 @@ pub fn run(tier: Tier) -> i32 {
     rep.cover("distinct_nontrivial", json!(nontrivial));
     rep.cover("failing_sequences_confirmed_on_fresh_process", json!(failing));
     rep.cover("process_restarts", json!(restarts));
-    rep.cover("rule", json!("all sequences of (client behaviour, observation-socket behaviour) pairs: length 1 full product (11 x 5); length 2 over all client pairs (quick: with a valid observation socket, plus all observation pairs on well-formed clients; thorough: full product) and, thorough, length 3 with at most two non-default elements; each followed by a well-formed probe with a valid observation socket that must get status 200 within 3 s; non-trivial = sequences containing at least one hostile element"));
+    rep.cover("rule", json!("all sequences of (client behaviour, observation-socket behaviour) pairs: length 1 full product (11 x 5); length 2 over all client pairs (quick: with a valid observation socket, plus all observation pairs on well-formed clients; thorough: full product) and, thorough, length 3 with at most two non-default elements and length 4 over all client triples and all observation-socket triples; each followed by a well-formed probe with a valid observation socket that must get status 200 within 3 s; non-trivial = sequences containing at least one hostile element"));
     rep.cover("samples", json!(seqs.iter().step_by(seqs.len() / 5 + 1).map(|s| json!(s)).collect::<Vec<_>>()));
     rep.cover("exhaustive", json!(true));
     rep.assume("kernel-level timing of FIN/RST delivery is not controlled: each behaviour waits a few milliseconds for its effect to be observable; a failure is reported only if it repeats on a fresh exporter process");
